@@ -2,7 +2,7 @@
   C15 — helper lemmas for `FwdVerif/Theorems/C15.lean` (core Lean only).
 
   §1 deadline arithmetic (`dl`, well-formed connection states, `next` keeps them well-formed)
-  §2 runs: stalled scripts, the closing instant
+  §2 runs: stalled scripts, the closing instant, anchors never move backwards
   §3 the accept loop: closed form (a function of the arrival instants alone, for every stacking)
 -/
 import FwdVerif.Model.C15
@@ -69,6 +69,8 @@ theorem next_noProgress {S : Stacking} {L : Limits} {c : Conn} {t : Nat} {e : Ev
   cases e with
   | complete => simp [noProgress] at h
   | head k => simp [noProgress] at h
+  | respStart => simp [noProgress] at h
+  | tunnelUp => simp [noProgress] at h
   | data =>
     have h1 : c.phase ≠ .idle := by intro hc; simp [noProgress, hc] at h
     have h2 : c.phase ≠ .mitmPeek := by intro hc; simp [noProgress, hc] at h
@@ -176,6 +178,38 @@ theorem run_stays_wf {S : Stacking} {L : Limits} (evs : List (Nat × Ev)) {c c' 
       split at hr
       · cases hr
       · exact ih (wf_next _ _ h) hr
+
+/-- the instant a phase's deadline counts from never moves backwards -/
+theorem next_anchor_ge {S : Stacking} {L : Limits} {c : Conn} {t : Nat} (e : Ev) (h : c.anchor ≤ t) :
+    c.anchor ≤ (next S L c t e).anchor := by
+  obtain ⟨ph, an, de⟩ := c
+  cases ph <;> cases e <;> (try rename_i k; cases k) <;>
+    simp_all [next, enter, afterHead] <;> (split <;> simp_all)
+
+/-- the phase a connection is closed in did not begin before the state the run started from -/
+theorem run_closed_anchor_ge {S : Stacking} {L : Limits} (evs : List (Nat × Ev)) {c : Conn}
+    {t a : Nat} {p : Phase} (hr : run S L c evs = .closed t p a) : c.anchor ≤ a := by
+  induction evs generalizing c with
+  | nil =>
+    cases hd : c.deadline with
+    | none => simp [run, hd] at hr
+    | some d =>
+      simp only [run, hd] at hr
+      injection hr with h1 h2 h3
+      omega
+  | cons x rest ih =>
+    obtain ⟨u, e⟩ := x
+    have hstep : c.anchor ≤ (next S L c (max u c.anchor) e).anchor := next_anchor_ge e (Nat.le_max_right ..)
+    cases hd : c.deadline with
+    | none =>
+      simp only [run, hd] at hr
+      exact Nat.le_trans hstep (ih hr)
+    | some d =>
+      simp only [run, hd] at hr
+      split at hr
+      · injection hr with h1 h2 h3
+        omega
+      · exact Nat.le_trans hstep (ih hr)
 
 /-! ## §3 accept loop -/
 
